@@ -177,6 +177,19 @@ Section Oracle.
     end.
 End Oracle.
 
+(* ---- what switches repair on at a tool surface ------------------------------------------------------------------
+   surface 1 = octave_validate (`fix`), 2 = octave_write (`lenient`), 3 = `octave validate` CLI (`--fix`).
+   arg = Some b: the caller passed the switch explicitly; None: the caller OMITTED it -> the default the translator read
+   from `<switch> = params.get('<switch>', <default>)` (the only binding of the switch; every repair() call is under
+   `if <switch> ...`).  Nothing else (profile, other arguments) is an input: that is what the translator checks. *)
+Definition surface_default (surface : N) : N :=
+  if surface =? 1 then repair_validate_fix_default
+  else if surface =? 2 then repair_write_lenient_default
+  else if surface =? 3 then repair_cli_fix_default
+  else 0.
+Definition surface_flag (surface : N) (arg : option bool) : bool :=
+  match arg with Some b => b | None => surface_default surface =? 1 end.
+
 (* EnumConstraint.evaluate on a string (exact, else unique prefix): used only to state what "valid" means *)
 Definition enum_eval (allowed : list str) (s : str) : bool :=
   str_in s allowed || (N.of_nat (length (filter (prefixb s) allowed)) =? 1).
@@ -192,6 +205,9 @@ Lemma repair_float_guards_pin : repair_float_guards = [1; 2].
 Proof. reflexivity. Qed.
 Lemma repair_mantissa_pin :
   repair_mantissa_split = 101 /\ repair_mantissa_lower = 1 /\ repair_mantissa_digit_test = 2 /\ repair_mantissa_digits = [].
+Proof. repeat split; reflexivity. Qed.
+Lemma repair_switch_defaults_pin :
+  repair_validate_fix_default = 0 /\ repair_write_lenient_default = 0 /\ repair_cli_fix_default = 0.
 Proof. repeat split; reflexivity. Qed.
 Lemma repair_tiers_are_REPAIR :
   repair_tier_enum = [82; 69; 80; 65; 73; 82] /\ repair_tier_type = [82; 69; 80; 65; 73; 82].
@@ -212,3 +228,6 @@ Fixpoint dig_find (t : dig_tbl) (c : N) : option N :=
   match t with [] => None | (k, v) :: t' => if c =? k then Some v else dig_find t' c end.
 Definition repair_tbl (t : orc_tbl) (dt : dig_tbl) (fix_ : bool) (sch : option schema) (d : list node) : list node * list entry :=
   repair (tbl_int t) (tbl_float t) (dig_find dt) fix_ sch d.
+(* the driver's entry for a tool surface: switch given / omitted *)
+Definition repair_surface_tbl (t : orc_tbl) (dt : dig_tbl) (surface : N) (arg : option bool) (sch : option schema) (d : list node)
+  : list node * list entry := repair_tbl t dt (surface_flag surface arg) sch d.
